@@ -3,6 +3,7 @@
 cd /verif
 [ -z "$(git -C /repo status --porcelain)" ] || { echo "/repo is not clean"; exit 9; }
 ids="$@"; [ -n "$ids" ] || ids=$(ls seeded)
+SAVE=$(mktemp -d); cp -r evidence "$SAVE/"; trap 'rm -rf evidence; cp -r "$SAVE/evidence" evidence; rm -rf "$SAVE"' EXIT   # evidence files must come from runs on the unchanged tree
 for s in $ids; do
   id=${s%%:*}; props=${s#*:}; [ "$props" = "$s" ] && props=$(python3 -c "import json;print(json.load(open('seeded/$id/meta.json'))['property'])")
   git -C /repo apply /verif/seeded/$id/patch.diff || { echo "$id: patch does not apply"; continue; }
